@@ -17,6 +17,7 @@ import sys
 import time
 import traceback
 
+from vfw import ambient
 from vfw.core import (
     VERIF_DIR,
     REPO_DIR,
@@ -98,7 +99,8 @@ def run_case(part, case, stats, known):
         # shrink budget used up: stop evaluating, let Hypothesis wind down
         return 'skipped'
     try:
-        labels = part.check(case)
+        with ambient.applied(case):
+            labels = part.check(case)
         labels = set(labels or ())
     except Reject as rej:
         if not stats.frozen:
@@ -213,7 +215,7 @@ def _run_hypothesis(part, tier, seed, shard, stats, known):
     from hypothesis import HealthCheck, Phase, given, settings
 
     n_examples = part.budget[tier]
-    strategy = part.strategy(tier)
+    strategy = ambient.wrap(part.strategy(tier))
 
     @hypothesis.seed(seed * 1000 + shard)
     @settings(
@@ -253,7 +255,8 @@ def replay_file(pid, path, known):
         record = json.load(f)
     part = next(p for p in module.PARTS if p.name == record['part'])
     try:
-        part.check(record['case'])
+        with ambient.applied(record['case']):
+            part.check(record['case'])
     except Reject as rej:
         return ('rejected', rej.why)
     except Violation as vio:
